@@ -217,7 +217,7 @@ Proof.
 Qed.
 
 Definition bs_dyn_spec (b : bsshape) (idx : list N) : bsshape :=
-  let dd := erase_spec (bs_dyn b) idx in bs_set_dyn (bs_base_spec b idx) dd (vlen dd).
+  let dd := erase_spec (bs_dyn b) idx in bs_set_dyn (bs_base_spec b idx) dd (16 * vlen dd).
 Definition bs_lod_spec (b : bsshape) (idx : list N) : bsshape :=
   let b1 := bs_base_spec b idx in bs_set_lod b1 0 0 (bs_nt b1).
 
@@ -239,7 +239,8 @@ Proof.
   unfold bs_base_spec at 1. cbn [bs_dyn].
   rewrite erase_correct by (rewrite ?pow16; assumption || lia). cbn [bind].
   pose proof (erase_spec_le (bs_dyn b) idx).
-  rewrite wrap32_small by lia. reflexivity.
+  rewrite (wrap32_small (vlen (erase_spec (bs_dyn b) idx))) by lia. rewrite wrap32_small by lia.
+  rewrite N.mul_comm. reflexivity.
 Qed.
 
 Theorem bs_lod_delete_ok b idx : sorted_lt idx -> bs_kind b = BSMeshLOD -> bs_core_wf b = true ->
